@@ -236,7 +236,9 @@ def build(o, values):
     if t == "MessageKey":
         return attributes_protocol.MessageKeyAttributes(g("remote_jid"), g("from_me"), g("id"), g("participant"))
     if t == "ContextInfo":
-        return attributes_context_info.ContextInfoAttributes(g("stanza_id"), g("participant"), g("quoted_message"), g("remote_jid"), g("mentioned_jid"), g("edit_version"), g("revoke_message"))
+        # composed as an application would: optional parts it does not set are simply not passed
+        kw = {a: g(a) for a in ("stanza_id", "participant", "quoted_message", "remote_jid", "mentioned_jid", "edit_version", "revoke_message")}
+        return attributes_context_info.ContextInfoAttributes(**{a: v for a, v in kw.items() if v is not None})
     raise core.MachineryError("type %s" % t)
 
 
@@ -356,6 +358,40 @@ def entity_histories(r, gen, table, rng, thorough):
         r.cov["traces_validated_against_impl"] += 1
 
 
+def object_isolation(r, gen, table, rng):
+    """Attribute objects composed one after the other are independent: editing one of them in place (appending to its list fields,
+    editing nested objects) does not change what another one - composed without those optional parts - serialises to."""
+    from yowsup.layers.protocol_messages.protocolentities.attributes.converter import AttributesConverter
+    conv = AttributesConverter.get()
+    for content in ["extended_text", "image", "contact", "location", "video", "document"]:
+        for depth in (1, 2):
+            r.case(("isolation", content, depth))
+            try:
+                # two messages whose context carries only required parts (no mention list, no quoted message)
+                o1, o2 = gen.message(depth, "context_info", content), gen.message(depth, "context_info", content)
+                a1, a2 = build(o1, gen.values), build(o2, gen.values)
+                before = conv.message_to_protobytes(a2)
+                stack = [a1]
+                seen = set()
+                while stack:
+                    x = stack.pop()
+                    if id(x) in seen or x is None:
+                        continue
+                    seen.add(id(x))
+                    for nm, val in list(vars(x).items()) if hasattr(x, "__dict__") else []:
+                        if isinstance(val, list):
+                            val.append("4915770009999@s.whatsapp.net")
+                        elif hasattr(val, "__dict__"):
+                            stack.append(val)
+                after = conv.message_to_protobytes(a2)
+            except Exception as e:
+                r.violation("isolation:exception:%s:%s" % (content, type(e).__name__), "composing two %s messages and editing the first raised %r" % (content, e), {"content": content})
+                continue
+            if before != after:
+                r.violation("isolation:shared-state:%s" % content, "editing one composed %s message in place changed what another, independently composed one serialises to" % content,
+                            {"content": content, "depth": depth})
+
+
 def run():
     r = core.Run("C10", "exploration")
     thorough = r.tier == "thorough"
@@ -452,6 +488,7 @@ def run():
         r.cov["traces_validated_against_impl"] += 1
         if ci in (1, 30):
             r.sample({"object": o, "expected_wire_paths": [list(x[0]) for x in exp][:12]})
+    object_isolation(r, gen, table, rng)
     entity_histories(r, gen, table, rng, thorough)
     r.assumptions += core.ENV_ASSUMPTIONS[:1] + ["field numbers / wire types are frozen from the protobuf descriptor embedded in e2e_pb2.py (spec/PayloadSchema.tla)",
                       "document file_length lives both on the document and on its downloadable-media attributes; the generator sets them equal",
